@@ -21,19 +21,44 @@ where
     par_ranks_with(n, threads(), f)
 }
 
+/// Wall-clock limit for a single rank. A rank is one bounded case; the heaviest legitimate ones
+/// take a few seconds. A rank that runs longer than this means the code under test does not
+/// return (C03: "never ... fails to return"; C12: "iterating ... always terminates"); the
+/// thread cannot be stopped, so the run ends there with a verdict (see report::stalled).
+pub fn stall_secs() -> u64 {
+    std::env::var("MC_STALL_SECS").ok().and_then(|s| s.parse().ok()).unwrap_or(90)
+}
+
+/// Developer / replay aid: run only this rank of the (single) selected sub-check.
+fn only_rank() -> Option<u64> {
+    std::env::var("MC_ONLY_RANK").ok().and_then(|s| s.parse().ok())
+}
+
 pub fn par_ranks_with<F>(n: u64, nthreads: usize, f: F) -> Vec<Acc>
 where
     F: Fn(u64, &mut Acc) + Sync,
 {
-    let next = AtomicU64::new(0);
+    let (lo, hi) = match only_rank() {
+        Some(r) if r < n => (r, r + 1),
+        Some(_) => (0, 0),
+        None => (0, n),
+    };
+    let next = AtomicU64::new(lo);
     let chunk = (n / (nthreads as u64 * 64)).clamp(1, 1 << 16);
     let stride = (n / 8).max(1);
     let mut accs = Vec::new();
+    // per worker: rank in progress + 1 (0 = idle / finished) and the time it started (ms since t0)
+    let slots: Vec<(AtomicU64, AtomicU64)> = (0..nthreads).map(|_| (AtomicU64::new(0), AtomicU64::new(0))).collect();
+    let t0 = std::time::Instant::now();
+    let done = std::sync::atomic::AtomicBool::new(false);
+    let limit_ms = stall_secs() * 1000;
     std::thread::scope(|s| {
         let mut hs = Vec::new();
-        for _ in 0..nthreads {
+        for w in 0..nthreads {
             let next = &next;
             let f = &f;
+            let slot = &slots[w];
+            let t0 = &t0;
             hs.push(
                 std::thread::Builder::new()
                     .stack_size(64 << 20)
@@ -42,19 +67,42 @@ where
                         acc.sample_stride = stride;
                         loop {
                             let start = next.fetch_add(chunk, Ordering::Relaxed);
-                            if start >= n {
+                            if start >= hi {
                                 break;
                             }
-                            let end = (start + chunk).min(n);
+                            let end = (start + chunk).min(hi);
                             for r in start..end {
+                                slot.1.store(t0.elapsed().as_millis() as u64, Ordering::Relaxed);
+                                slot.0.store(r + 1, Ordering::Release);
                                 f(r, &mut acc);
                             }
+                            slot.0.store(0, Ordering::Release);
                         }
                         acc
                     })
                     .expect("spawn worker"),
             );
         }
+        // watchdog
+        let slots = &slots;
+        let done = &done;
+        let t0 = &t0;
+        s.spawn(move || {
+            while !done.load(Ordering::Acquire) {
+                std::thread::sleep(std::time::Duration::from_millis(250));
+                let now = t0.elapsed().as_millis() as u64;
+                for slot in slots.iter() {
+                    let r1 = slot.0.load(Ordering::Acquire);
+                    let st = slot.1.load(Ordering::Relaxed);
+                    if r1 != 0 && now.saturating_sub(st) > limit_ms {
+                        // confirm it is still the same rank (not a torn read across two ranks)
+                        if slot.0.load(Ordering::Acquire) == r1 && slot.1.load(Ordering::Relaxed) == st {
+                            crate::report::stalled(r1 - 1, limit_ms / 1000);
+                        }
+                    }
+                }
+            }
+        });
         for h in hs {
             match h.join() {
                 Ok(a) => accs.push(a),
@@ -64,6 +112,7 @@ where
                 }
             }
         }
+        done.store(true, Ordering::Release);
     });
     accs
 }
